@@ -195,7 +195,7 @@ func vfC01Gen(rt *rapid.T) vfC01Case {
 				stored = append(stored, vecs[id])
 			}
 			op := vfVecOp{Op: "search", Vec: q}
-			op.K = rapid.IntRange(-3, len(live)+3).Draw(rt, "k")
+			op.K = vfGenK(rt, -3, len(live), 3)
 			op.Thr = vfGenThreshold(rt, kind, q, stored)
 			op.IDs = vfGenIDSubset(rt, all)
 			if rapid.IntRange(0, 4).Draw(rt, "thr_of_on") == 0 {
